@@ -6,7 +6,10 @@ fn main() {
         let line = line.unwrap();
         let mut it = line.split_whitespace();
         let (Some(ty), Some(v)) = (it.next(), it.next()) else { continue };
-        macro_rules! go { ($($t:ident),*) => { match ty { $( stringify!($t) => { let n: $t = v.parse().unwrap(); println!("{} {} {} {}", ty, v, n.to_lean_string(), n.to_string()); } )* _ => {} } } }
+        macro_rules! go { ($($t:ident),*) => { match ty { $( stringify!($t) => { let n: $t = v.parse().unwrap();
+            let r = std::panic::catch_unwind(|| n.to_lean_string().as_str().to_owned());
+            let shown = match r { Ok(s) => s.replace(' ', "<sp>").replace('\0', "<nul>"), Err(_) => "<PANIC>".to_string() };
+            println!("{} {} {} {}", ty, v, shown, n.to_string()); } )* _ => {} } } }
         go!(i8, u8, i16, u16, i32, u32, i64, u64, isize, usize, i128, u128);
     }
 }
